@@ -88,6 +88,7 @@ def run_guarded(driver, scn, timeout_s=120):
 def _chunk(args):
     prop, tier, base_seed, indices = args
     driver = _driver
+    findings = load_findings(prop)
     agg = {'stats': {}, 'sigs': set(), 'digests': [], 'violations': [], 'discards': {}, 'n': 0, 'samples': []}
     for i in indices:
         seed_i = prng.derive(base_seed, prop, i)
@@ -110,6 +111,15 @@ def _chunk(args):
             agg['discards'][res['discard']] = agg['discards'].get(res['discard'], 0) + 1
             continue
         agg['sigs'].update(res['sigs'])
+        if not res['ok'] and findings:
+            try:
+                f = attribute(driver, scn, res['vclass'], findings)
+            except RunTimeout:
+                f = None
+            if f is not None:
+                k = 'known:' + f['key']
+                agg['stats'][k] = agg['stats'].get(k, 0) + 1
+                continue
         if not res['ok']:
             if len(agg['violations']) < 3:
                 agg['violations'].append((i, scn, res['vclass'], res['detail']))
@@ -325,18 +335,18 @@ def main(prop, tier, base_seed, jobs=None, runs=None, budget_s=None, digest_out=
             else:
                 print('note: reproducer of known finding %s no longer fails' % f['key'])
 
-    # Violations: attribute, minimise, replay in a fresh process, report.
+    # Violations attributed (in the workers, by counterfactual re-run) to a listed known finding
+    for f in findings:
+        if f.get('status') == 'known' and total['stats'].get('known:' + f['key']):
+            line = 'KNOWN-FINDING: property=%s %s' % (prop, f['what_fails'])
+            if line not in known_lines:
+                known_lines.append(line)
+
+    # Remaining violations: minimise, replay in a fresh process, report.
     reported = []
     seen_classes = set()
     for (i, scn, vclass, detail) in total['violations']:
         if vclass in seen_classes or len(reported) >= 3:
-            continue
-        f = attribute(driver, scn, vclass, findings)
-        if f is not None:
-            line = 'KNOWN-FINDING: property=%s %s' % (prop, f['what_fails'])
-            if line not in known_lines:
-                known_lines.append(line)
-            total['stats']['attributed_to_known_finding'] = total['stats'].get('attributed_to_known_finding', 0) + 1
             continue
         seen_classes.add(vclass)
         small = shrink(driver, scn, vclass)
